@@ -1015,6 +1015,10 @@ func (l simNotifyWriter) Write(p []byte) (int, error) {
 	e.F = faultTag(f)
 	w.log.Add(e)
 	w.park(f)
+	if f != nil && f.Err != "" {
+		// the supervisor's socket has gone away
+		return 0, simErr(f.Err, "write")
+	}
 	return len(p), nil
 }
 
